@@ -796,6 +796,10 @@ class DirectProxyAccessor(WritableAccessor[T_co], PhysicalAccessor[T_co]):
 
         if value._model is not elmlist._model:
             raise ValueError("Cannot move elements between models")
+        if self.rootelem:
+            # the members live below an intermediate element, not below
+            # the list's owner (see also create())
+            raise TypeError("Cannot insert objects here")
         # Same index semantics as list.insert(): place the element directly
         # before the current member at that position (or after the last
         # member), regardless of other kinds of children in between.
